@@ -137,6 +137,71 @@ def check(ctx: Ctx) -> None:
                         ok2 = True
         rep.ob("R19.5", "an empty read (EOF / blank line) ends the session loop", ok2, node=r)
     rx = [x for x in g.raise_exits.values() if x.pred and x.kind == "x" and x.tok[0] not in ("builtins.Exception",)]
+    # ---------------------------------------------------------------- R19.8
+    rep.rule("R19.8", "NO-SPIN-AT-EOF: a stream read that returns nothing (EOF: `readline()` then returns b'' at once, without yielding to the "
+                      "event loop) is never repeated before the session has either left the loop or passed a step that really suspends - "
+                      "otherwise one client hanging up freezes the whole loop: no other session is served and the server cannot be stopped")
+    n_reads = 0
+    for f in list(sess.methods.values()) + list(srv.methods.values()):
+        if not f.is_async:
+            continue
+        g = ctx.an.cfg(f)
+        reads = [n for n in g.nodes if n.pred and n.op == "await" and n.awaited is not None and n.awaited.name.startswith("StreamReader.")]
+        for r in reads:
+            n_reads += 1
+            # the local the (decoded) message is bound to: target of the first assignment of the analysed function after the read
+            start = [s_ for s_, lab in r.succ if lab[0] in NORMAL_KINDS]
+            var = None
+            seen_, work = set(), list(start)
+            while work and var is None:
+                x = work.pop(0)
+                if id(x) in seen_:
+                    continue
+                seen_.add(id(x))
+                if x.func is f and x.op == "assign" and isinstance(x.ast, (ast.Assign, ast.AnnAssign)):
+                    t_ = x.ast.targets[0] if isinstance(x.ast, ast.Assign) else x.ast.target
+                    if isinstance(t_, ast.Name):
+                        var = t_.id
+                    break
+                if x.func is f and x.op == "test":
+                    w_ = [y for y in ast.walk(x.ast) if isinstance(y, ast.NamedExpr)]
+                    if w_:
+                        var = w_[0].target.id
+                    break
+                work += [s_ for s_, lab in x.succ if lab[0] in NORMAL_KINDS]
+
+            def falsy_branch(t: ast.AST):
+                """the branch label taken when `var` holds an empty message, or None when the test is about something else"""
+                neg = False
+                while isinstance(t, ast.UnaryOp) and isinstance(t.op, ast.Not):
+                    neg, t = not neg, t.operand
+                if isinstance(t, ast.NamedExpr):
+                    t = t.target
+                if isinstance(t, ast.Name) and t.id == var:
+                    return "T" if neg else "F"
+                if isinstance(t, ast.Compare) and len(t.ops) == 1 and isinstance(t.left, ast.Name) and t.left.id == var and isinstance(t.comparators[0], ast.Constant) \
+                        and t.comparators[0].value in ("", b""):
+                    if isinstance(t.ops[0], ast.Eq):
+                        return "F" if neg else "T"
+                    if isinstance(t.ops[0], ast.NotEq):
+                        return "T" if neg else "F"
+                return None
+
+            def ef(a, b, lab) -> bool:
+                if lab[0] not in NORMAL_KINDS:
+                    return False
+                if a is not r and a.suspends and ctx.effective(a) and not (a.awaited is not None and a.awaited.name.startswith("StreamReader.")):
+                    return False  # the loop yields here: not a spin
+                if a.op == "test" and a.func is f and var is not None and lab[0] in ("T", "F"):
+                    fb = falsy_branch(a.ast)
+                    if fb is not None:
+                        return lab[0] == fb
+                return True
+
+            again = r in reach(start, ef)
+            rep.ob("R19.8", "a read that hits EOF is not repeated at once (the loop is left, or yields first)", not again, node=r,
+                   detail="" if not again else f"with `{var}` empty the path from the read leads straight back to it: readline() at EOF returns immediately, so this loop never yields")
+    rep.floor("R19.8", "stream reads in the session / server coroutines", n_reads, 2)
     # ---------------------------------------------------------------- R19.6
     rep.rule("R19.6", "client: the exit command / EOF closes the writer and clears _connected; start() loops on _connected")
     cl = prog.cls("control.client.ControlClient")
